@@ -22,7 +22,6 @@ import (
 	"io"
 	"strconv"
 
-	dtypeutils "github.com/siglens/siglens/pkg/common/dtypeutils"
 	"github.com/siglens/siglens/pkg/segment/query/iqr"
 	"github.com/siglens/siglens/pkg/segment/structs"
 	sutils "github.com/siglens/siglens/pkg/segment/utils"
@@ -119,7 +118,8 @@ const (
 )
 
 func compareFloat(a, b float64) compare {
-	if dtypeutils.AlmostEquals(a, b) {
+	// exact comparison: a tolerance is not transitive, so values closer than it came out in arbitrary order
+	if a == b {
 		return EQUAL
 	}
 
